@@ -9,13 +9,19 @@
        that opens (or is) the node Node.node_at finds at the position — by a token of the same node type
        whose attributes / marks are the updated ones (type_create of the documented update), and changes no
        other token: "node-level mark and attribute edits change only the addressed node".
-   Which marks the tokens inside the range of a mark step end up with (the pointwise rule with exclusions and
-   parent permissions), whole add_mark / remove_mark operations (which plan several steps) and
-   set_block_type / set_node_markup are evaluated per case by Corr.C13 in Coq on the implementation's output. *)
-From Coq Require Import List Arith.
+   (3) WHICH marks: the result of a mark step is the document's token sequence in which every token of the
+       range has its marks rewritten by a function of the token's own node type, the type of the node that
+       encloses it IN THE DOCUMENT, and its old marks ([remarked], read token by token by C13_remarked_reading):
+       AddMarkStep: text, leaves and atom nodes whose enclosing node's type allows the mark type get
+       Mark.add_to_set(old marks) — which C14 characterises exactly (kept unchanged if an equal mark is present
+       or a present mark excludes the new one, otherwise the excluded marks removed and the mark inserted at
+       its rank) — other tokens are left alone; RemoveMarkStep: the mark is removed from every inline token.
+   Whole add_mark / remove_mark operations (which plan several steps), set_block_type / set_node_markup are
+   evaluated per case by Corr.C13 in Coq on the implementation's output. *)
+From Coq Require Import List Arith Bool.
 From PM Require Import Model.Data Model.Mark Model.Tree Model.Resolve Model.Step Spec.Tokens
   Proofs.ReplaceValid Proofs.TokenBasics Proofs.ReplaceTokens Proofs.SliceShape Proofs.TokenLaws
-  Proofs.NodeSteps Proofs.MarkSteps.
+  Proofs.NodeSteps Proofs.MarkSteps Proofs.MarkPointwise.
 Import ListNotations.
 Local Open Scope nat_scope.
 
@@ -41,3 +47,20 @@ Theorem C13_node_step_changes_only_the_node : forall s st pos doc d',
     DT s d' = firstn pos (DT s doc) ++ [tnorm (head_tok s ty a' m')] ++ skipn (S pos) (DT s doc).
 Proof. exact node_step_splice. Qed.
 Print Assumptions C13_node_step_changes_only_the_node.
+
+Theorem C13_mark_step_pointwise : forall s st from to doc d',
+  check s doc = true -> from <= to ->
+  mark_step_range st = Some (from, to) -> apply s st doc = ROk d' ->
+  DT s d' = nt (remarked s (step_upd s st) doc from to).
+Proof. exact mark_step_pointwise. Qed.
+Print Assumptions C13_mark_step_pointwise.
+
+(* reading [remarked] token by token: token i of the result is token i of the document, re-marked by
+   [ftok] in the context [ctx_at doc i] (the type of the innermost node open at i) if from <= i < to *)
+Theorem C13_remarked_reading : forall s u doc from to i t,
+  from <= to -> to <= length (ftoks s (node_content doc)) ->
+  nth_error (ftoks s (node_content doc)) i = Some t ->
+  nth_error (remarked s u doc from to) i =
+    Some (if (from <=? i) && (i <? to) then ftok s u (snd (ctx_at s doc i)) t else t).
+Proof. exact remarked_nth. Qed.
+Print Assumptions C13_remarked_reading.
